@@ -1,7 +1,8 @@
 import TomlVerif.Model.ErrorPos
+import TomlVerif.Lemmas.ErrorPos15
 /-! # C15 — every rejection is a well-formed, correctly located error -/
 namespace TomlVerif.Props.C15
-open TomlVerif TomlVerif.Spec TomlVerif.Model.ErrorPos
+open TomlVerif TomlVerif.Spec TomlVerif.Model.ErrorPos TomlVerif.Lemmas.ErrorPos15
 
 /-- on the empty input the position is reported as given -/
 theorem T15_empty (i : Nat) : translatePosition [] i = (0, i) := rfl
@@ -9,5 +10,259 @@ theorem T15_empty (i : Nat) : translatePosition [] i = (0, i) := rfl
 /-- at end of input winnow reports an empty span at the end -/
 theorem T15_charspan_eof (s : Bytes) : charSpan s s.length = (s.length, s.length) := by
   simp [charSpan]
+
+/-! ## 1. the span is well formed for every byte string -/
+
+theorem T15_charspan_bounds (s : Bytes) (o : Nat) (ho : o ≤ s.length) :
+    (charSpan s o).1 ≤ (charSpan s o).2 ∧ (charSpan s o).2 ≤ s.length ∧ (charSpan s o).1 ≤ o ∧
+      (o < s.length → o < (charSpan s o).2) := by
+  by_cases hlt : o < s.length
+  · rw [charSpan_of_lt s o hlt]
+    have h1 := charSpan_start_facts s o
+    have h2 := charSpan_end_facts s o hlt
+    simp only at h1 h2 ⊢
+    omega
+  · have : o = s.length := by omega
+    subst this
+    rw [T15_charspan_eof]
+    simp
+
+/-! ## 2. both ends are character boundaries -/
+
+/-- holds for every byte string (validity is not needed with `Utf8.isBoundary` as defined) -/
+theorem T15_charspan_boundary_any (s : Bytes) (o : Nat) (ho : o ≤ s.length) :
+    Utf8.isBoundary s (charSpan s o).1 = true ∧ Utf8.isBoundary s (charSpan s o).2 = true := by
+  by_cases hlt : o < s.length
+  · rw [charSpan_of_lt s o hlt]
+    exact ⟨(charSpan_start_facts s o).2, (charSpan_end_facts s o hlt).2.2⟩
+  · have : o = s.length := by omega
+    subst this
+    rw [T15_charspan_eof]
+    exact ⟨isBoundary_length s, isBoundary_length s⟩
+
+theorem T15_charspan_boundary (s : Bytes) (o : Nat) (_hv : Utf8.valid s = true) (ho : o ≤ s.length) :
+    Utf8.isBoundary s (charSpan s o).1 = true ∧ Utf8.isBoundary s (charSpan s o).2 = true :=
+  T15_charspan_boundary_any s o ho
+
+/-- what a boundary means on valid UTF-8: it cuts the text into two valid texts -/
+theorem T15_boundary_splits (s : Bytes) (a : Nat) (hv : Utf8.valid s = true) (ha : a ≤ s.length)
+    (hb : Utf8.isBoundary s a = true) :
+    Utf8.valid (s.take a) = true ∧ Utf8.valid (s.drop a) = true :=
+  ⟨valid_take s a hv ha hb, valid_drop s a hv ha hb⟩
+
+/-- the slice between two boundaries of a valid text is valid -/
+theorem T15_slice_valid (s : Bytes) (a b : Nat) (hv : Utf8.valid s = true)
+    (ha : Utf8.isBoundary s a = true) (hb : Utf8.isBoundary s b = true) (hab : a ≤ b) (hbl : b ≤ s.length) :
+    Utf8.valid ((s.take b).drop a) = true :=
+  valid_slice s a b hv ha hb hab hbl
+
+/-- on valid UTF-8 the reported span is a valid piece of text -/
+theorem T15_charspan_slice_valid (s : Bytes) (o : Nat) (hv : Utf8.valid s = true) (ho : o ≤ s.length) :
+    Utf8.valid ((s.take (charSpan s o).2).drop (charSpan s o).1) = true := by
+  have hb := T15_charspan_bounds s o ho
+  have hc := T15_charspan_boundary_any s o ho
+  exact valid_slice s _ _ hv hc.1 hc.2 hb.1 hb.2.1
+
+/-! ## 3. the position -/
+
+/-- index just after the last LF strictly before position `min i (|s| - 1)` (0 if none) -/
+def lineStartSpec (s : Bytes) (i : Nat) : Nat := lastLfEnd s (min i (s.length - 1))
+
+/-- number of LF bytes before the line containing the anchor -/
+def specLine (s : Bytes) (i : Nat) : Nat := ((s.take (lineStartSpec s i)).filter (· == 0x0A)).length
+
+/-- number of characters (non-continuation bytes) between the line start and `i` -/
+def specColumn (s : Bytes) (i : Nat) : Nat :=
+  (((s.take (min i s.length)).drop (lineStartSpec s i)).filter (fun b => !Utf8.isCont b)).length +
+    (i - min i s.length)
+
+/-- `lineStartSpec` is characterised by: it is at most the anchor, it is 0 or follows an LF, and
+    there is no LF between it and the anchor -/
+theorem lineStartSpec_char (s : Bytes) (i : Nat) :
+    lineStartSpec s i ≤ min i (s.length - 1) ∧
+    (lineStartSpec s i = 0 ∨ ∃ j, lineStartSpec s i = j + 1 ∧ s[j]? = some 0x0A) ∧
+    (∀ j, lineStartSpec s i ≤ j → j < min i (s.length - 1) → s[j]? ≠ some 0x0A) :=
+  ⟨lastLfEnd_le s _, lastLfEnd_after_lf s _, lastLfEnd_no_lf s _⟩
+
+theorem lineStartSpec_boundary (s : Bytes) (i : Nat) (hv : Utf8.valid s = true) :
+    Utf8.isBoundary s (lineStartSpec s i) = true := lastLfEnd_boundary s hv _
+
+theorem T15_position_spec (s : Bytes) (i : Nat) (hne : s ≠ []) (hv : Utf8.valid s = true)
+    (hi : i ≤ s.length) (hb : Utf8.isBoundary s i = true) :
+    translatePosition s i = (specLine s i, specColumn s i) := by
+  have hlen : 0 < s.length := List.length_pos_iff.mpr hne
+  have hemp : s.isEmpty = false := by cases s with | nil => exact absurd rfl hne | cons _ _ => rfl
+  unfold translatePosition
+  simp only [hemp, Bool.false_eq_true, if_false]
+  have hsafe : min i (s.length - 1) ≤ s.length := by omega
+  rw [lineStartOf_take s _ hsafe]
+  have he : min (min i (s.length - 1) + (i - min i (s.length - 1))) s.length = i := by omega
+  have hso : min i (s.length - 1) + (i - min i (s.length - 1)) = i := by omega
+  rw [he, hso]
+  have hls : lastLfEnd s (min i (s.length - 1)) ≤ i := by
+    have := lastLfEnd_le s (min i (s.length - 1)); omega
+  have hslice := valid_slice s _ i hv (lastLfEnd_boundary s hv _) hb hls hi
+  rw [hslice]
+  simp only [if_true]
+  have hmi : min i s.length = i := by omega
+  unfold specLine specColumn lineStartSpec charCount
+  rw [hmi]
+  rfl
+
+
+/-! ## 4. rendering never panics -/
+
+theorem translatePosition_line_le (s : Bytes) (i : Nat) :
+    (translatePosition s i).1 ≤ (s.filter (· == 0x0A)).length := by
+  unfold translatePosition
+  split
+  · exact Nat.zero_le _
+  · exact filter_take_length_le _ s _
+
+/-- the only way `Display for TomlError` can panic is an inverted span -/
+theorem T15_render_isSome_iff (s : Bytes) (a b : Nat) : (displayIndices s a b).isSome = true ↔ a ≤ b := by
+  have hl := translatePosition_line_le s a
+  unfold displayIndices
+  have h1 : ¬ (translatePosition s a).1 ≥ (s.filter (· == 0x0A)).length + 1 := by omega
+  simp only [h1, if_false]
+  by_cases hab : b < a
+  · simp only [hab, if_true]; simp; omega
+  · simp only [hab, if_false]; simp; omega
+
+theorem T15_render_total (s : Bytes) (o : Nat) (ho : o ≤ s.length) :
+    (displayIndices s (charSpan s o).1 (charSpan s o).2).isSome = true :=
+  (T15_render_isSome_iff s _ _).mpr (T15_charspan_bounds s o ho).1
+
+/-! ## 5. the column counts characters, not bytes -/
+
+theorem T15_column_counts_chars (s : Bytes) (i : Nat) (hne : s ≠ []) (hv : Utf8.valid s = true)
+    (hi : i ≤ s.length) (hb : Utf8.isBoundary s i = true) :
+    (translatePosition s i).2 ≤ i - lineStartSpec s i ∧
+    ((translatePosition s i).2 = i - lineStartSpec s i ↔
+      ∀ b ∈ (s.take i).drop (lineStartSpec s i), b < 0x80) := by
+  rw [T15_position_spec s i hne hv hi hb]
+  have hmi : min i s.length = i := by omega
+  have hls : lineStartSpec s i ≤ i := by
+    have := (lineStartSpec_char s i).1; omega
+  have hcol : specColumn s i = charCount ((s.take i).drop (lineStartSpec s i)) := by
+    unfold specColumn charCount
+    rw [hmi, Nat.sub_self, Nat.add_zero]
+    rfl
+  have hlen : ((s.take i).drop (lineStartSpec s i)).length = i - lineStartSpec s i := by
+    simp [List.length_drop, List.length_take, hmi]
+  have hslice := valid_slice s _ i hv (lineStartSpec_boundary s i hv) hb hls hi
+  simp only [hcol]
+  rw [← hlen]
+  refine ⟨charCount_le_length _, ?_⟩
+  rw [charCount_eq_length_iff]
+  constructor
+  · intro h; exact valid_no_cont_ascii _ _ (Nat.le_refl _) hslice h
+  · intro h b hb; exact ascii_not_cont b (h b hb)
+
+
+/-! ## extras -/
+
+/-- the span is tight: there is no character boundary strictly inside it, so together with
+    `T15_charspan_bounds`/`T15_charspan_boundary_any` the span is exactly the character
+    (maximal boundary-free block) containing byte `o` -/
+theorem T15_charspan_tight (s : Bytes) (o : Nat) (ho : o < s.length) (j : Nat)
+    (h1 : (charSpan s o).1 < j) (h2 : j < (charSpan s o).2) : Utf8.isBoundary s j = false :=
+  charSpan_tight s o ho j h1 h2
+
+/-- `Utf8.valid` / `charCount` against the encoder: a concatenation of encoded scalar values is
+    valid and its `charCount` is the number of scalar values -/
+theorem T15_charCount_scalars (cps : List Nat) (hs : ∀ cp ∈ cps, Utf8.isScalar cp = true) :
+    Utf8.valid (cps.flatMap Utf8.encode) = true ∧ charCount (cps.flatMap Utf8.encode) = cps.length :=
+  flatMap_encode_valid_count cps hs
+
+/-- the reported column is the number of Unicode scalar values between the line start and the
+    anchor (no validity assumption on the rest of the text) -/
+theorem T15_column_is_scalar_count (s : Bytes) (i : Nat) (cps : List Nat) (hne : s ≠ [])
+    (hi : i ≤ s.length) (hs : ∀ cp ∈ cps, Utf8.isScalar cp = true)
+    (hline : (s.take i).drop (lineStartSpec s i) = cps.flatMap Utf8.encode) :
+    translatePosition s i = (specLine s i, cps.length) := by
+  have hlen : 0 < s.length := List.length_pos_iff.mpr hne
+  have hemp : s.isEmpty = false := by cases s with | nil => exact absurd rfl hne | cons _ _ => rfl
+  unfold translatePosition
+  simp only [hemp, Bool.false_eq_true, if_false]
+  have hsafe : min i (s.length - 1) ≤ s.length := by omega
+  rw [lineStartOf_take s _ hsafe]
+  have he : min (min i (s.length - 1) + (i - min i (s.length - 1))) s.length = i := by omega
+  have hso : min i (s.length - 1) + (i - min i (s.length - 1)) = i := by omega
+  rw [he, hso]
+  unfold lineStartSpec at hline
+  rw [hline]
+  have := flatMap_encode_valid_count cps hs
+  rw [this.1, this.2]
+  simp only [if_true, Nat.sub_self, Nat.add_zero]
+  rfl
+
+/-! ## the statements in `let (a, b) := …` form -/
+
+theorem T15_charspan_bounds' : ∀ (s : Bytes) (o : Nat), o ≤ s.length →
+    let (a, b) := charSpan s o
+    a ≤ b ∧ b ≤ s.length ∧ a ≤ o ∧ (o < s.length → o < b) := by
+  intro s o ho
+  have := T15_charspan_bounds s o ho
+  generalize charSpan s o = p at *
+  obtain ⟨a, b⟩ := p
+  exact this
+
+theorem T15_charspan_boundary' : ∀ (s : Bytes) (o : Nat), Utf8.valid s = true → o ≤ s.length →
+    let (a, b) := charSpan s o
+    Utf8.isBoundary s a = true ∧ Utf8.isBoundary s b = true := by
+  intro s o hv ho
+  have := T15_charspan_boundary s o hv ho
+  generalize charSpan s o = p at *
+  obtain ⟨a, b⟩ := p
+  exact this
+
+theorem T15_render_total' : ∀ (s : Bytes) (o : Nat), o ≤ s.length →
+    let (a, b) := charSpan s o
+    (displayIndices s a b).isSome = true := by
+  intro s o ho
+  have := T15_render_total s o ho
+  generalize charSpan s o = p at *
+  obtain ⟨a, b⟩ := p
+  exact this
+
+/-! ## examples (non-vacuity) -/
+
+/-- bytes of `"é"é` (quote, é, quote, é) -/
+def ex1 : Bytes := [0x22, 0xC3, 0xA9, 0x22, 0xC3, 0xA9]
+/-- bytes of `a = 1⏎bé = "日本"⏎€` -/
+def ex2 : Bytes := [97, 32, 61, 32, 49, 10, 98, 195, 169, 32, 61, 32, 34, 230, 151, 165, 230, 156, 172, 34, 10,
+  226, 130, 172]
+/-- not UTF-8: two stray continuation bytes, `A`, a truncated 2-byte lead -/
+def ex3 : Bytes := [0x80, 0x80, 0x41, 0xC3]
+
+-- hypotheses of T15_position_spec / T15_column_counts_chars are met by multi-byte inputs
+example : ex1 ≠ [] ∧ Utf8.valid ex1 = true ∧ 4 ≤ ex1.length ∧ Utf8.isBoundary ex1 4 = true := by decide
+example : translatePosition ex1 4 = (0, 3) := by decide
+example : (specLine ex1 4, specColumn ex1 4) = (0, 3) := by decide
+example : ex2 ≠ [] ∧ Utf8.valid ex2 = true ∧ 19 ≤ ex2.length ∧ Utf8.isBoundary ex2 19 = true := by decide
+example : translatePosition ex2 19 = (1, 8) ∧ lineStartSpec ex2 19 = 6 := by decide   -- 13 bytes, 8 characters
+example : translatePosition ex2 24 = (2, 1) := by decide                              -- at EOF after `€`
+-- the column is strictly below the byte count as soon as a non-ASCII character precedes the anchor
+example : (translatePosition ex2 19).2 < 19 - lineStartSpec ex2 19 := by decide
+-- … and equals it on an all-ASCII line prefix
+example : (translatePosition ex2 5).2 = 5 - lineStartSpec ex2 5 := by decide
+-- the boundary hypothesis of T15_position_spec is needed: inside `日` the model falls back to bytes
+example : Utf8.isBoundary ex2 14 = false ∧ translatePosition ex2 14 = (1, 8) ∧ specColumn ex2 14 = 7 := by decide
+-- T15_column_is_scalar_count: `bé = "日本` is 8 scalar values
+example : (ex2.take 19).drop (lineStartSpec ex2 19) =
+    [0x62, 0xE9, 0x20, 0x3D, 0x20, 0x22, 0x65E5, 0x672C].flatMap Utf8.encode := by decide
+-- charSpan: on a continuation byte of `é` the span is the whole character; at EOF it is empty
+example : charSpan ex1 2 = (1, 3) ∧ charSpan ex1 1 = (1, 3) ∧ charSpan ex1 3 = (3, 4) ∧ charSpan ex1 6 = (6, 6) := by
+  decide
+example : charSpan ex2 15 = (13, 16) ∧ Utf8.isBoundary ex2 14 = false ∧ Utf8.isBoundary ex2 15 = false := by decide
+-- T15_charspan_bounds / T15_render_total also cover ill-formed input
+example : Utf8.valid ex3 = false ∧ charSpan ex3 1 = (0, 2) ∧ charSpan ex3 3 = (3, 4) := by decide
+example : displayIndices ex3 0 2 = some (1, 1, 2) := by decide
+example : displayIndices ex1 4 6 = some (1, 4, 2) := by decide
+-- the `none` branch of displayIndices is reachable only with an inverted span
+example : displayIndices ex1 4 3 = none := by decide
+-- T15_boundary_splits / T15_slice_valid
+example : Utf8.valid ((ex2.take 19).drop 13) = true ∧ Utf8.valid ((ex2.take 19).drop 14) = false := by decide
 
 end TomlVerif.Props.C15
